@@ -74,6 +74,10 @@ def run(ctx) -> None:
     from . import c06
 
     ctx.reuse("C07.split-sum", c06.partition_volume)
+    # which well number a step addresses on the Fluent (and which side is partitioned by) depends on what counts as a trough
+    from . import c08
+
+    ctx.reuse("C07.record-pair", c08.trough_predicate)
     for dev in concrete_devices(ctx):
         ctx.reuse("C07.split-sum", c06.iteration_space, dev)
 
